@@ -53,8 +53,9 @@ Path = PathKind()
 class U(Kind):
     """Uninterpreted universe (opaque values: floats, task results, user objects)."""
 
-    def __init__(self, name):
+    def __init__(self, name, plain=False):
         self.name = name
+        self.plain = plain          # plain data: never an instance of a /repo class
 
     def sort(self):
         k = ('U', self.name)
